@@ -9,9 +9,11 @@ substring that must appear in the violation line (rule id), kind = 'mutant'
 CORPUS = []
 
 
-def M(id, prop, file, old, new, expect=None, kind='mutant', note=''):
+def M(id, prop, file, old, new, expect=None, kind='mutant', note='',
+      accept_error=False):
     CORPUS.append(dict(id=id, prop=prop, file=file, old=old, new=new,
-                       expect=expect, kind=kind, note=note))
+                       expect=expect, kind=kind, note=note,
+                       accept_error=accept_error))
 
 
 def MM(id, prop, edits, expect=None, kind='mutant', note=''):
@@ -706,3 +708,119 @@ M('C10-n-yield-from-block', 'C10', F_LUA,
   "        yield self._get_text(node, b'do')\n"
   "        self._indent += 1\n"
   "        yield from self._walk(node.block)\n", kind='neutral')
+
+# ---------------------------------------------------------------- C01 ----
+M('C01-revert-fix01-hazards', 'C01', F_LUA,
+  "            if last_chunk[-1:] + chunk[:1] in (b'--', b'..', b'[[', b'[='):\n"
+  "                yield b' '\n", "", expect='R-C01-noglue')
+M('C01-hazard-missing-dash', 'C01', F_LUA,
+  "in (b'--', b'..', b'[[', b'[='):", "in (b'..', b'[[', b'[='):",
+  expect='R-C01-noglue')
+M('C01-keyword-no-space', 'C01', F_LUA,
+  "            elif token.matches(lexer.TokKeyword):\n"
+  "                if self._last_was_name_keyword_number:\n"
+  "                    yield b' '\n",
+  "            elif token.matches(lexer.TokKeyword):\n",
+  expect='R-C01-noglue')
+M('C01-number-dropped', 'C01', F_LUA,
+  "            elif token.matches(lexer.TokNumber):\n"
+  "                if self._last_was_name_keyword_number:\n"
+  "                    yield b' '\n"
+  "                self._last_was_name_keyword_number = True\n"
+  "                self._last_was_newline = False\n"
+  "                yield token.code\n",
+  "            elif token.matches(lexer.TokNumber):\n"
+  "                if self._last_was_name_keyword_number:\n"
+  "                    yield b' '\n"
+  "                self._last_was_name_keyword_number = True\n"
+  "                self._last_was_newline = False\n"
+  "                if token.code == b'0':\n"
+  "                    continue\n"
+  "                yield token.code\n", expect='R-C01-transducer',
+  note='data-dependent drop is outside the class model: exit 2 accepted',
+  accept_error=True)
+M('C01-name-forgets-newline-flag', 'C01', F_LUA,
+  "                self._last_was_name_keyword_number = True\n"
+  "                self._last_was_newline = False\n"
+  "                yield self._name_factory.get_short_name(token.code)\n",
+  "                self._last_was_name_keyword_number = True\n"
+  "                yield self._name_factory.get_short_name(token.code)\n",
+  expect='R-C01-transducer')
+M('C01-close-bracket-set', 'C01', F_LUA,
+  "                self._last_was_name_keyword_number = token.code in b'])}'\n",
+  "                self._last_was_name_keyword_number = token.code in b')}'\n",
+  kind='neutral', note='`]x` never fuses: behaviour-preserving for glue')
+M('C01-luamin-wrong-writer', 'C01', F_TOOL,
+  "        lua_writer_cls=lua.LuaMinifyTokenWriter,\n        lua_writer_args={\n            # 'keep_property_names'",
+  "        lua_writer_cls=lua.LuaMinifyWriter,\n        lua_writer_args={\n            # 'keep_property_names'",
+  expect='R-C01-wiring')
+M('C01-decimal-lookahead-removed', 'C01', F_LEXER,
+  "(re.compile(br'[0-9]+(\\.(?!\\.)[0-9]*)?([eE][+-]?[0-9]+)?'), TokNumber),",
+  "(re.compile(br'[0-9]+(\\.[0-9]*)?([eE][+-]?[0-9]+)?'), TokNumber),",
+  expect='R-C01-noglue', note='1 ..x -> 1..x re-lexes as 1. .x')
+M('C01-newline-always-dropped', 'C01', F_LUA,
+  "                if not self._last_was_newline:\n                    yield b'\\n'\n",
+  "                if not self._last_was_newline and False:\n                    yield b'\\n'\n",
+  expect='R-C01-transducer', note='and False is outside model? constant ok')
+M('C01-n-split-helper', 'C01', F_LUA,
+  "            elif token.matches(lexer.TokKeyword):\n"
+  "                if self._last_was_name_keyword_number:\n"
+  "                    yield b' '\n"
+  "                self._last_was_name_keyword_number = True\n"
+  "                self._last_was_newline = False\n"
+  "                yield token.code\n",
+  "            elif token.matches(lexer.TokKeyword):\n"
+  "                if self._last_was_name_keyword_number:\n"
+  "                    yield b' '\n"
+  "                self._last_was_newline = False\n"
+  "                self._last_was_name_keyword_number = True\n"
+  "                yield token.code\n", kind='neutral')
+
+# ---------------------------------------------------------------- C19 ----
+M('C19-keep-one-comment', 'C19', F_LUA,
+  "                seen_header_comments < 2 and\n",
+  "                seen_header_comments < 1 and\n", expect='R-C19-agree')
+M('C19-header-no-newline', 'C19', F_LUA,
+  "                seen_header_comments += 1\n"
+  "                yield token.code\n"
+  "                yield b'\\n'\n",
+  "                seen_header_comments += 1\n"
+  "                yield token.code\n", expect='R-C19-header')
+M('C19-drop-before-header', 'C19', F_LUA,
+  "            if (not seen_non_comment_token and\n"
+  "                seen_header_comments < 2 and\n"
+  "                    token.matches(lexer.TokComment)):\n"
+  "                seen_header_comments += 1\n"
+  "                yield token.code\n"
+  "                yield b'\\n'\n"
+  "                continue\n\n"
+  "            if (token.matches(lexer.TokComment) or\n"
+  "                    token.matches(lexer.TokSpace)):\n"
+  "                continue\n",
+  "            if (token.matches(lexer.TokComment) or\n"
+  "                    token.matches(lexer.TokSpace)):\n"
+  "                continue\n"
+  "            if (not seen_non_comment_token and\n"
+  "                seen_header_comments < 2 and\n"
+  "                    token.matches(lexer.TokComment)):\n"
+  "                seen_header_comments += 1\n"
+  "                yield token.code\n"
+  "                yield b'\\n'\n"
+  "                continue\n\n", expect='R-C19-header')
+M('C19-space-counts-as-code', 'C19', F_LUA,
+  "                not token.matches(lexer.TokComment) and\n"
+  "                not token.matches(lexer.TokSpace) and\n"
+  "                    not token.matches(lexer.TokNewline)):\n",
+  "                not token.matches(lexer.TokComment) and\n"
+  "                    not token.matches(lexer.TokNewline)):\n",
+  expect='R-C19-header')
+M('C19-comment-stripped', 'C19', F_LUA,
+  "                seen_header_comments += 1\n                yield token.code\n",
+  "                seen_header_comments += 1\n                yield token.code.strip()\n",
+  expect='R-C19-header', note='outside the chunk model -> analysis error')
+M('C19-byline-index', 'C19', F_LUA,
+  "        title_tok = self._lexer.tokens[2]\n",
+  "        title_tok = self._lexer.tokens[1]\n", expect='R-C19-agree')
+M('C19-glue-into-comment', 'C19', F_LUA,
+  "in (b'--', b'..', b'[[', b'[='):", "in (b'..', b'[[', b'[='):",
+  expect='R-C01-noglue')
